@@ -81,6 +81,22 @@ def gen_case(rng, cid, two, per):
             b4 = len(cmds)
             cmds.append(['evalstr', '111', f'(list {deep} (reval {e} {net}) {ie})'])
             checks.append(('deep', b4, e, i, d))
+        # two traces standing at different indices: each trace is tested against its own range, and e@k is e with every
+        # trace moved by k from where it stands
+        if two and rng.random() < 0.6:
+            d = rng.choice([1, 2, 3, -1, -2])
+            na, nb = infos['a']['n'], infos['b']['n']
+            if 0 <= i + d <= na - 1:
+                inr2 = 0 <= i + d + k <= na - 1 and 0 <= i + k <= nb - 1
+                b5 = len(cmds)
+                cmds.append(['evalstr', '111', f'(step a {d})'])
+                cmds.append(['evalstr', '111', f'(list (reval {e} {k}) {ie})'])
+                if inr2:
+                    cmds.append(['evalstr', '111', f'(step {k})'])
+                    cmds.append(['evalstr', '111', f'(list {e} {ie})'])
+                    cmds.append(['evalstr', '111', f'(step {-k})'])
+                cmds.append(['evalstr', '111', f'(step a {-d})'])
+                checks.append(('skew', b5, e, (i, d), (k, inr2)))
         cmds.append(['evalstr', '111', f'(step {-i})'])
     return {'id': cid, 'cmds': cmds, 'checks': checks, 'tids': tids}
 
@@ -134,6 +150,23 @@ def oracle(case, impl):
                 want = '( ' + 'I%d ' % i * n + ')'
                 if lib.canon(a[1]) != lib.canon(want):
                     return f'indices after (reval {e} {k}) at {i}, where e moves a trace itself: {a[1]} expected {want} (positions must be restored whatever e did)'
+            elif kind == 'skew':
+                (i0, d), (k0, inr2) = i, k
+                where = f'with trace a at {i0 + d} and trace b at {i0}'
+                if len(res) <= base + 1:
+                    return f'session stopped at {res[-1:]} (e={e} {where} k={k0})'
+                want = f'( I{i0 + d} I{i0} )'
+                if inr2:
+                    if len(res) <= base + 3 or not res[base + 1].startswith('ok') or not res[base + 3].startswith('ok'):
+                        continue
+                    a = split_list(res[base + 1])
+                    b = split_list(res[base + 3])
+                    if lib.canon(a[0]) != lib.canon(b[0]):
+                        return f'(reval {e} {k0}) {where} = {a[0]} but e after moving both traces by {k0} = {b[0]} (the offset is inside both traces)'
+                    if lib.canon(a[1]) != lib.canon(want):
+                        return f'indices after (reval {e} {k0}) {where}: {a[1]} expected {want}'
+                elif lib.canon(res[base + 1]) != lib.canon('ok ( B0 ' + want + ' )'):
+                    return f'(reval {e} {k0}) {where}, out of range for one trace, gave {res[base + 1]} expected #f and positions {want}'
             elif kind == 'deep':
                 if len(res) <= base or not res[base].startswith('ok'):
                     continue
